@@ -105,12 +105,12 @@ func C04(tier string) {
 		}
 		r.Rule("all 2^24 RGB at alphas 255, 254, 128, 1 and 0 for each of the 16 ordered pairs (complete), plus all 256 alphas x the 4,096-point lattice {0,17,...,255}^3; distinct = (pair, pixel) combinations whose reference value is strictly inside the destination gamut on all channels")
 	} else {
-		for v := 0; v < 256; v += 4 {
+		for v := 0; v < 256; v += 3 {
 			lattice = append(lattice, uint8(v))
 		}
-		lattice = append(lattice, 1, 2, 3, 253, 254, 255)
+		lattice = append(lattice, 1, 2, 253, 254)
 		r.NotExhaustive()
-		r.Rule("70^3 lattice {0,1,2,3,4,8,...,252,253,254,255}^3 at alpha 255, all 256 greys, the six gamut faces on a 32-step lattice, alphas {0,1,2,127,128,254,255} x {0,17,...,255}^3, for each of the 16 ordered pairs; distinct = (pair, pixel) combinations whose reference value is strictly inside the destination gamut on all channels")
+		r.Rule("90^3 lattice {0,1,2,3,6,9,...,252,253,254,255}^3 at alpha 255, all 256 greys, the six gamut faces on a 32-step lattice, alphas {0,1,2,127,128,254,255} x {0,17,...,255}^3, for each of the 16 ordered pairs; distinct = (pair, pixel) combinations whose reference value is strictly inside the destination gamut on all channels")
 	}
 
 	for pi := range pairs {
